@@ -166,4 +166,27 @@ def labelsNoSel (c : PCtx) (col : String) (label : Option Bytes) : Sel :=
     (some (and_ (dateConds c ++ (match label with | some l => [eq (.raw "key") (.str l)] | none => []))))
     [] none [] (some (.int 10000))
 
+/-- `GenericLabelsPlanner._process` in general: the date bounds, `fingerprint IN fp` when a fingerprint request is given,
+    then LabelValues' `key == label` -/
+def labelsSel (c : PCtx) (col : String) (label : Option Bytes) (withFp : Bool) : Sel :=
+  .mk [] true [.raw col] (some (.raw c.ginDistTable)) [] none
+    (some (and_ (dateConds c ++ (if withFp then [.isIn (.raw "fingerprint") [.withRef (.named "fp")]] else []) ++
+      (match label with | some l => [eq (.raw "key") (.str l)] | none => []))))
+    [] none [] (some (.int 10000))
+
+/-- a statement whose one WITH entry is `(s₀) UNION ALL (s₁) …` (`UnionAllPlanner` → `unionAll.String`): the shared `Sel`
+    has no place for a union as a WITH query, so the operands are kept beside the main select and `render` writes them
+    the way `With.String` / `unionAll.String` / `Select.String` do -/
+structure UnionStmt where
+  alias : String
+  ops : List Sel
+  main : Sel
+
+def UnionStmt.render (u : UnionStmt) : Bytes :=
+  b "WITH " ++ b u.alias ++ b " as ((" ++ joinB (b ") UNION ALL (") (u.ops.map renderSelBody) ++ b "))" ++ renderSelBody u.main
+
+/-- LabelNames / LabelValues with selector sets (`len(scripts) > 0`): `fp` = the union of their selector statements -/
+def labelsUnion (c : PCtx) (col : String) (label : Option Bytes) (scripts : List (List PCond × List PCond)) : UnionStmt :=
+  { alias := "fp", ops := scripts.map (fun p => selectorSel c p.1 p.2), main := labelsSel c col label true }
+
 end Qryn.Prof
